@@ -27,6 +27,8 @@ pub struct Case {
     pub probes: Vec<Probe>,
     pub ranges: Vec<(BoundSpec, BoundSpec)>,
     pub prefixes: Vec<PrefixSpec>,
+    /// a multi-step history on ONE cursor (absolute and relative moves interleaved)
+    pub ops: Vec<crate::model::Op>,
 }
 
 /// Re-encodes a levels=0 V2 file as a V1 file: same blocks, 21-byte trailer built by the independent encoder
@@ -68,6 +70,8 @@ fn query_all<'a>(
     for ps in &case.prefixes {
         check_prefix(&reader, entries, &ps.bytes(entries), &format!("{sigp}:prefix"))?;
     }
+    // a long history on one cursor, judged by the position machine of C03
+    crate::props::c03::run_history(bytes, entries, &case.ops, None).map_err(|f| crate::common::Fail::new(format!("{sigp}:history:{}", f.signature), f.msg))?;
     Ok((reader.len(), reader.compression_type() as u8, fwd, bwd))
 }
 
@@ -80,15 +84,15 @@ impl Prop for C10 {
 
     fn stages(&self, tier: Tier) -> Vec<Stage<Case>> {
         let conf = gen::wconf_with(Just(0u8).boxed());
-        let s = (conf, gen::entry_src(tier), vec(any::<u16>(), 60), vec(gen::probe(), 20), vec(range_strategy(), 10), vec(prefix_strategy(), 10))
-            .prop_map(|(conf, src, picks, probes, ranges, prefixes)| Case { spec: FileSpec { conf, src }, picks, probes, ranges, prefixes });
+        let s = (conf, gen::entry_src(tier), vec(any::<u16>(), 60), vec(gen::probe(), 20), vec(range_strategy(), 10), vec(prefix_strategy(), 10), gen::history(120))
+            .prop_map(|(conf, src, picks, probes, ranges, prefixes, ops)| Case { spec: FileSpec { conf, src }, picks, probes, ranges, prefixes, ops });
         vec![stage("files", s, tier.pick(1500, 40_000)).shrink(600)]
     }
 
     fn rule(&self) -> String {
         "case = single-level file from the current writer (all codecs, block sizes, intervals) re-encoded with a V1 trailer by \
          an independent encoder; oracle: opens as V1 with the stored count and codec; forward/backward scan, the seek \
-         alphabet (complete for <=150 entries), 10 ranges and 10 prefixes each equal the model and equal the result on the \
+         alphabet (complete for <=150 entries), 10 ranges, 10 prefixes and a 120-operation history on one cursor each equal the model and equal the result on the \
          V2 original. non-trivial = n>=2, >=2 data blocks and codec id != 0; distinct = hash(case)"
             .into()
     }
